@@ -198,5 +198,25 @@ func capSplits(q *refmodel.LogQuery) []logqlengine.QuerierCapabilities {
 			out = append(out, c)
 		}
 	}
+	// That collapse leans on what the current engine consults. Two full configurations are added whatever the query
+	// holds, so that an engine which starts to offload something else (label filters, say) meets a storage that
+	// accepts it: every label operator (what the Docker querier advertises), and every label and line operator.
+	var dockerLike, full logqlengine.QuerierCapabilities
+	for _, op := range []logql.BinOp{logql.OpEq, logql.OpNotEq, logql.OpRe, logql.OpNotRe} {
+		dockerLike.Label.Add(op)
+		full.Label.Add(op)
+		full.Line.Add(op)
+	}
+	for _, extra := range []logqlengine.QuerierCapabilities{dockerLike, full} {
+		dup := false
+		for _, c := range out {
+			if c == extra {
+				dup = true
+			}
+		}
+		if !dup {
+			out = append(out, extra)
+		}
+	}
 	return out
 }
